@@ -235,7 +235,7 @@ def part_greedy(ck, r, tier, rnd, S):
     log("greedy compiled replay done (%d tie divergences)" % ties)
 
     # ---- code -> spec: interpreted recordings of the same instances + random larger ones
-    n_rand = 300 if tier == "quick" else 3000
+    n_rand = 300 if tier == "quick" else 10000
     rinsts = [random_greedy_instance(rnd) for _ in range(n_rand)]
     allp = insts + rinsts
     cs = chunks(list(range(len(allp))), 250)
@@ -264,7 +264,7 @@ def part_greedy(ck, r, tier, rnd, S):
     ]
     if tier == "thorough":
         ptasks.append({"op": "call_greedy", "prog": "call-pedigree", "argv": ["--bam"] + mixed + common + ["--haplotypes", S["hap_vcfs"]["mock"], "--prior-frequencies", "AFP",
-                                                                                                   "--sample-parents", S["pedigree"], "--gamete-error", "0.1", "--inbreeding", "0.5"],
+                                                                                                   "--sample-parents", S["pedigree"], "--gamete-error", "0.1"],
                        "tag": "pedigree-prior"})
     res = pool.map_tasks("impl.x01", ptasks, mode="py")
     prog_cases, skipped, not_forwarded = [], 0, 0
@@ -778,10 +778,81 @@ def corrupted_quality(ck, events, rejected_ids):
     return len(bad)
 
 
+def replay(ck, path):
+    """./check X01 --replay work/X01/violation-N.json : re-run exactly the recorded input against the tree under test"""
+    with open(path) as fh:
+        rec = json.load(fh)
+    d, kind, key = rec["detail"], rec["kind"], rec.get("key") or {}
+    site = key.get("site", "")
+    print("replay %s kind=%s key=%s" % (path, kind, key))
+    bad = False
+    inst = d.get("inst") or d.get("instance")
+    if site == "greedy_caller" and inst:
+        inst = {k: v for k, v in inst.items() if k not in ("op", "tag", "idx", "freq_given")}
+        inst.setdefault("A", [1 + max(h[j] for h in inst["H"]) for j in range(inst["N"])])
+        rr = pool.map_tasks("impl.x01", [{"op": "greedy_py", "insts": [inst]}], mode="py")[0]
+        rj = pool.map_tasks("impl.x01", [{"op": "greedy", "insts": [inst]}], mode="jit")[0]
+        if not rr["ok"] or not rj["ok"]:
+            print("implementation raised: %s" % (rr.get("error") or rj.get("error")))
+            sys.exit(1)
+        ev = rr["result"][0]
+        _, rej = validate(ck, "TraceGreedyCaller", [ev], "replay", expect_reject=True, njvm=1)
+        print("instance: %s" % json.dumps(inst))
+        print("interpreted result %s, compiled result %s" % (ev[-1]["result"], rj["result"][0]["freq"]))
+        for x in rej:
+            print("REJECT clause=%s event=%s" % (x["clause"], json.dumps(x["event"])[:400]))
+        bad = bool(rej) or ev[-1]["result"] != rj["result"][0]["freq"] or ("model" in d and rj["result"][0]["freq"] != d["model"])
+    elif site in (SITE_START, "_read_mean_dist") and isinstance(d.get("inst"), dict) and "A" in d["inst"]:
+        inst = dict(d["inst"])
+        seeds = [d["seed"]] if "seed" in d else [ck.seed * 1000 + s_ for s_ in range(8)]
+        rr = pool.map_tasks("impl.x01", [{"op": "start", "insts": [inst], "seeds": seeds}], mode="jit")[0]
+        if not rr["ok"]:
+            print("implementation raised: %s" % rr["error"])
+            sys.exit(1)
+        o = rr["result"][0]
+        het = [j for j, f in enumerate(inst["fixed"]) if not f]
+        print("instance: %s" % json.dumps(inst))
+        print("error: %s" % o["error"])
+        ev = []
+        for s_ in o["starts"]:
+            print("seed %s start %s n_alleles %s temps %s" % (s_["seed"], s_["geno"], s_["n_alleles"], s_["temps"]))
+            ev.append({"op": "start", "P": inst["P"], "n_alleles": [inst["A"][j] for j in het], "geno": s_["geno"],
+                       "temps": [int(round(t * 1000000)) for t in s_["temps"]], "draws": []})
+        if ev:
+            _, rej = validate(ck, "TraceQuality", [[e] for e in ev], "replay", expect_reject=True, njvm=1)
+            for x in rej:
+                print("REJECT clause=%s event=%s" % (x["clause"], json.dumps(x["event"])[:400]))
+            bad = bool(rej)
+    elif kind == "mec" and "state" in d:
+        rr = pool.map_tasks("impl.x01", [{"op": "mec", "states": [d["state"]], "dtype": d.get("dtype", "int8")}], mode="jit")[0]
+        print("state: %s" % json.dumps(d["state"]))
+        print("implementation: %s" % (rr.get("result") or rr.get("error")))
+        print("model (%s): %s" % (d.get("what"), d.get("model")))
+        bad = True if not rr["ok"] else (rr["result"][0]["per"] != d["model"] if d.get("what", "").startswith("per-read") else True)
+    elif kind == "phred" and "prob" in d:
+        thr = None
+        r = tlc.run(SPEC, "Phred", "Phred_quick.cfg")
+        for t in r.printed:
+            if t["prec"] == d.get("precision", 6):
+                thr = t["thr"]
+        m = int(Fraction(d["prob"]) * 10 ** d.get("precision", 6))
+        rr = pool.map_tasks("impl.x01", [{"op": "qual_sweep", "prec": d.get("precision", 6), "thr": thr, "lo": max(0, m - 1), "hi": m + 1}], mode="jit")[0]
+        print("qual_of_prob around %r: %s" % (d["prob"], rr.get("result") or rr.get("error")))
+        bad = (not rr["ok"]) or rr["result"]["nbad"] > 0
+    else:
+        print(json.dumps(d, indent=1)[:4000])
+        print("(no targeted replay for this kind: run ./check X01)")
+        sys.exit(1)
+    print("replay verdict: %s" % ("VIOLATION" if bad else "not reproduced on this tree"))
+    sys.exit(1 if bad else 0)
+
+
 def main():
     ck = Check("X01")
     tier = ck.tier
     rnd = random.Random(ck.seed)
+    if os.environ.get("VERIF_REPLAY"):
+        replay(ck, os.environ["VERIF_REPLAY"])
     ck.rule = (
         "TLC enumerates (a) every instance of a haplotype-menu x read-bag x ploidy x F x frequency-pattern grid for the greedy start state, "
         "(b) every (allele counts, read rows, fixed SNV set, ladder) instance with all its reachable assemble start states, (c) every read-matrix x genotype "
